@@ -65,76 +65,110 @@ def interp(U):
   return I
 
 
+import contextlib
+import os
+
+
+@contextlib.contextmanager
+def fieldrun(seed, bool_default=None):
+  """Random-interpretation session: values are GF(p) images; the scenario oracle is installed
+  with set_scenario() once the symbols it refers to exist."""
+  avn.field_mode(seed, bool_default=bool_default)
+  try:
+    yield
+  finally:
+    avn.exact_mode()
+
+
+def set_scenario(dec):
+  avn.FIELD['decide'] = dec
+
+
+def seeds(tier):
+  s0 = int(os.environ.get('VERIF_SEED', '0') or 0)
+  return [s0 * 1000 + t for t in range(4 if tier == 'quick' else 12)]
+
+
 SCENES = [('body-body x2', ([0, 0], [1, 1])), ('world-body', ([-1], [0])), ('mixed', ([-1, 0], [1, 1]))]
+
+
+def trials(rep, tier, rule, key, where, construct, message, body):
+  """Run `body()` (returns bool) under several random-interpretation sessions; a single failing
+  trial refutes the polynomial identity."""
+  bad = None
+  # first trial: every gate the scenario leaves undecided is open; second: closed; then random
+  for k, sd in enumerate(seeds(tier)):
+    with fieldrun(sd, bool_default={0: 1, 1: 0}.get(k)):
+      if not body():
+        bad = sd
+        break
+  rep.check(bad is None, rule, key, message + ('' if bad is None else ' (random-interpretation trial seed %d)' % bad),
+            where=where, construct=construct + '  [%d GF(p) trials]' % len(seeds(tier)))
 
 
 def contacts(U, rep, tier):
   scenes = SCENES if tier == 'thorough' else SCENES[:2]
   for name, lidx in scenes:
-    # ---- spring
-    I = interp(U)
-    c = symsys.contact(lidx)
-    sysd = symsys.system('11', (-1, 0))
-    st = symsys.state_maxcoord(2)
-    dec = scenario.positive_symbols([Rat.lift(d).key() for d in c.f['dist']])
-    f = U.func(SC + '.resolve')
-    I.contracts[('brax.contact', 'get')] = lambda s, x: c
-    long_ = I.apply(fn(SC, 'resolve'), [sysd, st], {})
-    I.contracts[('brax.contact', 'get')] = lambda s, x: None
-    short = I.apply(fn(SC, 'resolve'), [sysd, st], {})
-    got = scenario.subst(long_, dec)
-    rep.check(same(got, short), 'R6.1', 'spring.collisions.resolve inert when dist > 0 [%s]' % name,
-              lambda: 'separated contacts still change velocities in the spring pipeline: residual ' + residual(I, got),
-              where=f.where(), construct='resolve(contact | dist>0) == resolve(no contact)')
-    # ---- positional position level
-    I = interp(U)
-    sysd = symsys.system('11', (-1, 0))
-    st = symsys.state_maxcoord(2)
-    xprev = T('xp', (2,))
-    f = U.func(PC + '.resolve_position')
-    long_ = I.apply(fn(PC, 'resolve_position'), [sysd, st, xprev, c], {})
-    short = I.apply(fn(PC, 'resolve_position'), [sysd, st, xprev, None], {})
-    got = scenario.subst(long_, dec)
-    ok = isinstance(got, tuple) and len(got) == 2 and same(got[0], short[0]) and is_zero(I, got[1])
-    rep.check(ok, 'R6.1', 'positional.resolve_position inert when dist > 0 [%s]' % name,
-              'separated contacts still move links (or the two paths normalise differently): %s' % (
-                  diff_report(got[0], short[0]) if isinstance(got, tuple) else 'bad return'),
-              where=f.where(), construct='resolve_position(contact | dist>0) == resolve_position(None)')
-    # ---- positional velocity level
-    I = interp(U)
-    st = symsys.state_maxcoord(2)
-    xdprev = M('xdp', (2,))
-    dl = symarr('dl', (len(lidx[0]),))
-    f = U.func(PC + '.resolve_velocity')
-    long_ = I.apply(fn(PC, 'resolve_velocity'), [sysd, st, xdprev, c, dl], {})
-    short = I.apply(fn(PC, 'resolve_velocity'), [sysd, st, xdprev, None, dl], {})
-    got = scenario.subst(long_, dec)
-    rep.check(same(got, short), 'R6.1', 'positional.resolve_velocity inert when dist > 0 [%s]' % name,
-              lambda: 'separated contacts still change velocities in the positional pipeline: residual ' + residual(I, got),
-              where=f.where(), construct='resolve_velocity(contact | dist>0) == resolve_velocity(None)')
-    # ---- generalized contact rows
-    I = interp(U)
-    nv = 2
-    sysd = symsys.system('11', (-1, 0))
-    stg = Struct('State', {'x': T('x', (2,)), 'root_com': symarr('rc', (2, 3)), 'cdof': M('cdof', (nv,)),
-                           'qd': symarr('qd', (nv,))})
-    I.contracts[('brax.contact', 'get')] = lambda s, x: c
-    cnt = [0]
-    def pj(sys_, com, cdof, pos, link_idx):
-      cnt[0] += 1
-      return M('pj%d_' % cnt[0], (nv,))
-    def imp_aref(params, pos, vel):
-      k = cnt[0] = cnt[0] + 1
-      return symarr('imp%d_' % k, asarr(pos).shape), symarr('aref%d_' % k, asarr(pos).shape)
-    I.contracts[(GC, 'point_jacobian')] = pj
-    I.contracts[(GC, '_imp_aref')] = imp_aref
-    f = U.func(GC + '.jac_contact')
-    rows = I.apply(fn(GC, 'jac_contact'), [sysd, stg], {})
-    got = scenario.subst(rows, dec)
-    rep.check(isinstance(got, tuple) and len(got) == 3 and is_zero(I, got), 'R6.1',
-              'generalized.jac_contact rows vanish when dist > 0 [%s]' % name,
-              'constraint rows of separated contacts are not masked: residual ' + residual(I, got), where=f.where(),
-              construct='(jac, diag, aref) * [dist < 0]')
+    def spring():
+      I = new_interp(U.repo)
+      c = symsys.contact(lidx)
+      sysd, st = symsys.system('11', (-1, 0)), symsys.state_maxcoord(2)
+      set_scenario(scenario.positive_symbols([Rat.lift(d).key() for d in c.f['dist']]))
+      I.contracts[('brax.contact', 'get')] = lambda s, x: c
+      long_ = I.apply(fn(SC, 'resolve'), [sysd, st], {})
+      I.contracts[('brax.contact', 'get')] = lambda s, x: None
+      return same(long_, I.apply(fn(SC, 'resolve'), [sysd, st], {}))
+    trials(rep, tier, 'R6.1', 'spring.collisions.resolve inert when dist > 0 [%s]' % name, U.func(SC + '.resolve').where(),
+           'resolve(contact | dist>0) == resolve(no contact)',
+           'separated contacts still change velocities in the spring pipeline', spring)
+
+    def pos_position():
+      I = new_interp(U.repo)
+      c = symsys.contact(lidx)
+      sysd, st, xprev = symsys.system('11', (-1, 0)), symsys.state_maxcoord(2), T('xp', (2,))
+      set_scenario(scenario.positive_symbols([Rat.lift(d).key() for d in c.f['dist']]))
+      long_ = I.apply(fn(PC, 'resolve_position'), [sysd, st, xprev, c], {})
+      short = I.apply(fn(PC, 'resolve_position'), [sysd, st, xprev, None], {})
+      return isinstance(long_, tuple) and len(long_) == 2 and same(long_[0], short[0]) and is_zero(I, long_[1])
+    trials(rep, tier, 'R6.1', 'positional.resolve_position inert when dist > 0 [%s]' % name,
+           U.func(PC + '.resolve_position').where(), 'resolve_position(contact | dist>0) == resolve_position(None)',
+           'separated contacts still move links (or the two paths normalise differently)', pos_position)
+
+    def pos_velocity():
+      I = new_interp(U.repo)
+      c = symsys.contact(lidx)
+      sysd, st = symsys.system('11', (-1, 0)), symsys.state_maxcoord(2)
+      xdprev, dl = M('xdp', (2,)), symarr('dl', (len(lidx[0]),))
+      set_scenario(scenario.positive_symbols([Rat.lift(d).key() for d in c.f['dist']]))
+      long_ = I.apply(fn(PC, 'resolve_velocity'), [sysd, st, xdprev, c, dl], {})
+      return same(long_, I.apply(fn(PC, 'resolve_velocity'), [sysd, st, xdprev, None, dl], {}))
+    trials(rep, tier, 'R6.1', 'positional.resolve_velocity inert when dist > 0 [%s]' % name,
+           U.func(PC + '.resolve_velocity').where(), 'resolve_velocity(contact | dist>0) == resolve_velocity(None)',
+           'separated contacts still change velocities in the positional pipeline', pos_velocity)
+
+    def gen_rows():
+      I = new_interp(U.repo)
+      c = symsys.contact(lidx)
+      nv = 2
+      sysd = symsys.system('11', (-1, 0))
+      stg = Struct('State', {'x': T('x', (2,)), 'root_com': symarr('rc', (2, 3)), 'cdof': M('cdof', (nv,)),
+                             'qd': symarr('qd', (nv,))})
+      set_scenario(scenario.positive_symbols([Rat.lift(d).key() for d in c.f['dist']]))
+      I.contracts[('brax.contact', 'get')] = lambda s, x: c
+      cnt = [0]
+      def pj(sys_, com, cdof, pos, link_idx):
+        cnt[0] += 1
+        return M('pj%d_' % cnt[0], (nv,))
+      def imp_aref(params, pos, vel):
+        k = cnt[0] = cnt[0] + 1
+        return symarr('imp%d_' % k, asarr(pos).shape), symarr('aref%d_' % k, asarr(pos).shape)
+      I.contracts[(GC, 'point_jacobian')] = pj
+      I.contracts[(GC, '_imp_aref')] = imp_aref
+      rows = I.apply(fn(GC, 'jac_contact'), [sysd, stg], {})
+      return isinstance(rows, tuple) and len(rows) == 3 and is_zero(I, rows)
+    trials(rep, tier, 'R6.1', 'generalized.jac_contact rows vanish when dist > 0 [%s]' % name,
+           U.func(GC + '.jac_contact').where(), '(jac, diag, aref) * [dist < 0]',
+           'constraint rows of separated contacts are not masked', gen_rows)
 
 
 def _joint_contracts(I):
@@ -172,81 +206,74 @@ def inside_range(lo, hi, coords=None):
   return decide
 
 
-def spring_limits(U, rep):
+def spring_limits(U, rep, tier):
   for fname, ndof in (('_one_dof', 1), ('_two_dof', 2), ('_three_dof', 3)):
-    I = interp(U)
-    _joint_contracts(I)
-    f = U.func('%s.%s' % (SJ, fname))
-    lk = Struct('Link', {'constraint_stiffness': sym('ks'), 'constraint_vel_damping': sym('kvd'),
-                         'constraint_limit_stiffness': sym('kls'), 'constraint_ang_damping': sym('kad')})
-    j, jd = T('j'), M('jd')
-    motion = Struct('Motion', {'ang': symarr('da', (ndof, 3)), 'vel': symarr('dv', (ndof, 3))})
-    lo, hi = symarr('lo', (ndof,)), symarr('hi', (ndof,))
-    tau = symarr('tau', (ndof,))
-    res = {}
-    for lim in (True, False):
-      dof = Struct('DoF', {'motion': motion, 'limit': (lo, hi) if lim else None})
-      res[lim] = I.apply(fn(SJ, fname), [lk, j, jd, dof, tau], {})
-    angles = [sym('psi'), sym('theta'), sym('phi')][:ndof]
-    if fname == '_one_dof':
-      slides = [np.dot(j.f['pos'], symarr('jfv', (3, 3))[0])]
-    else:
-      slides = [np.dot(j.f['pos'], motion.f['vel'][k]) for k in range(ndof)]
-    dec = inside_range(lo, hi, coords=angles + slides)
-    got = scenario.subst(res[True], dec)
-    rep.check(same(got, res[False]), 'R6.2', 'spring.joints.%s: limits inert inside the range' % fname,
-              lambda: 'joint limits change the joint force although every coordinate is inside its range: '
-              + diff_report(got, res[False]), where=f.where(), construct='%s(limit | lo<q<hi) == %s(limit=None)' % (fname, fname))
-
-
-def positional_limits(U, rep):
-  """_sphericalize.pad_x_dof + _three_dof_joint_update: limits not reached == no limits."""
-  f = U.func(PJ + '._three_dof_joint_update')
-  fs = U.func(PJ + '._sphericalize')
-  for x, kind in ((1, 'hinge'), (1, 'slide'), (2, 'hinge'), (2, 'slide'), (3, 'hinge'), (3, 'slide')):
-    I = interp(U)
-    _joint_contracts(I)
-    avn.EXPAND_CLIP[0] = True
-    try:
-      pad = nested_fn(I, PJ, '_sphericalize', 'pad_x_dof')
-      ang = symarr('da', (x, 3)) if kind == 'hinge' else P_zeros((x, 3))
-      vel = symarr('dv', (x, 3)) if kind == 'slide' else P_zeros((x, 3))
-      motion = Struct('Motion', {'ang': ang, 'vel': vel}, home='brax.base')
-      lo, hi = symarr('lo', (x,)), symarr('hi', (x,))
-      tr = T('j')
-      jf = Struct('Motion', {'ang': symarr('jfa', (3, 3)), 'vel': symarr('jfv', (3, 3))})
+    def body():
+      I = new_interp(U.repo)
+      _joint_contracts(I)
+      lk = Struct('Link', {'constraint_stiffness': sym('ks'), 'constraint_vel_damping': sym('kvd'),
+                           'constraint_limit_stiffness': sym('kls'), 'constraint_ang_damping': sym('kad')})
+      j, jd = T('j'), M('jd')
+      motion = Struct('Motion', {'ang': symarr('da', (ndof, 3)), 'vel': symarr('dv', (ndof, 3))})
+      lo, hi = symarr('lo', (ndof,)), symarr('hi', (ndof,))
+      tau = symarr('tau', (ndof,))
+      angles = [sym('psi'), sym('theta'), sym('phi')][:ndof]
+      if fname == '_one_dof':
+        slides = [np.dot(j.f['pos'], symarr('jfv', (3, 3))[0])]
+      else:
+        slides = [np.dot(j.f['pos'], motion.f['vel'][k]) for k in range(ndof)]
+      set_scenario(inside_range(lo, hi, coords=angles + slides))
       res = {}
       for lim in (True, False):
         dof = Struct('DoF', {'motion': motion, 'limit': (lo, hi) if lim else None})
-        limit, padded = I.apply(pad, [dof, x], {})
-        res[lim] = I.apply(fn(PJ, '_three_dof_joint_update'), [tr, limit, padded, jf, sym('parity')], {})
-      dec = inside_range(lo, hi)
-      # the symbolic axes are the joint's real (non-zero) axes: any(axis) is true
-      any_dec = lambda nm: 1 if isinstance(nm, avn.Atom) and nm.kind == 'any' else None
-      inf_dec = scenario.chain(_inf_decide(), any_dec)
-      got = scenario.subst(res[True], scenario.chain(dec, inf_dec))
-      want = scenario.subst(res[False], inf_dec)
-      rep.check(same(got, want), 'R6.3', 'positional joints (%d %s dof): limits not reached == no limits' % (x, kind),
-                lambda: 'a model without joint limits is updated differently from the same model with (unreached) limits: '
-                + diff_report(got, want), where=fs.where(),
-                construct='_three_dof_joint_update(pad_x_dof(limit) | lo<q<hi) == ...(pad_x_dof(limit=None))')
-    finally:
-      avn.EXPAND_CLIP[0] = False
+        res[lim] = I.apply(fn(SJ, fname), [lk, j, jd, dof, tau], {})
+      return same(res[True], res[False])
+    trials(rep, tier, 'R6.2', 'spring.joints.%s: limits inert inside the range' % fname,
+           U.func('%s.%s' % (SJ, fname)).where(), '%s(limit | lo<q<hi) == %s(limit=None)' % (fname, fname),
+           'joint limits change the joint force although every coordinate is inside its range', body)
+
+
+def positional_limits(U, rep, tier):
+  """_sphericalize.pad_x_dof + _three_dof_joint_update: limits not reached == no limits."""
+  fs = U.func(PJ + '._sphericalize')
+  for x, kind in ((1, 'hinge'), (1, 'slide'), (2, 'hinge'), (2, 'slide'), (3, 'hinge'), (3, 'slide')):
+    def body():
+      I = new_interp(U.repo)
+      _joint_contracts(I)
+      avn.EXPAND_CLIP[0] = True
+      try:
+        pad = nested_fn(I, PJ, '_sphericalize', 'pad_x_dof')
+        ang = symarr('da', (x, 3)) if kind == 'hinge' else P_zeros((x, 3))
+        vel = symarr('dv', (x, 3)) if kind == 'slide' else P_zeros((x, 3))
+        motion = Struct('Motion', {'ang': ang, 'vel': vel}, home='brax.base')
+        lo, hi = symarr('lo', (x,)), symarr('hi', (x,))
+        tr = T('j')
+        jf = Struct('Motion', {'ang': symarr('jfa', (3, 3)), 'vel': symarr('jfv', (3, 3))})
+        # the symbolic axes are the joint's real (non-zero) axes: any(axis) is true
+        any_dec = lambda nm: 1 if nm.kind == 'any' else None
+        set_scenario(scenario.chain(inside_range(lo, hi), _inf_decide(), any_dec))
+        res = {}
+        for lim in (True, False):
+          dof = Struct('DoF', {'motion': motion, 'limit': (lo, hi) if lim else None})
+          limit, padded = I.apply(pad, [dof, x], {})
+          res[lim] = I.apply(fn(PJ, '_three_dof_joint_update'), [tr, limit, padded, jf, sym('parity')], {})
+        return same(res[True], res[False])
+      finally:
+        avn.EXPAND_CLIP[0] = False
+    trials(rep, tier, 'R6.3', 'positional joints (%d %s dof): limits not reached == no limits' % (x, kind), fs.where(),
+           '_three_dof_joint_update(pad_x_dof(limit) | lo<q<hi) == ...(pad_x_dof(limit=None))',
+           'a model without joint limits is updated differently from the same model with (unreached) limits', body)
 
 
 def _inf_decide():
+  """decide() for comparisons with +-inf literals (valid in exact and random-interpretation mode)."""
+  pinf, ninf = Rat.lift(float('inf')), Rat.lift(float('-inf'))
+  pos = {pinf.key(), (-ninf).key()}
+  neg = {ninf.key(), (-pinf).key()}
+
   def kind(k):
-    # key of +-inf literal symbol
-    if isinstance(k, tuple) and len(k) == 2 and k[0] == 'p' and len(k[1]) == 1:
-      mono, coef = k[1][0]
-      if len(mono) == 1 and isinstance(mono[0][0], avn.Atom) and mono[0][0].kind == 'lit':
-        v = mono[0][0].key[1]
-        s = 1 if coef > 0 else -1
-        if v == 'inf':
-          return s
-        if v == '-inf':
-          return -s
-    return 0
+    return 1 if k in pos else (-1 if k in neg else 0)
+
   def decide(nm):
     if not avn._is_bool_name(nm) or nm[1] != '<':
       return None
@@ -377,21 +404,30 @@ def push_only(U, rep):
   force, is_c = I.apply(imp, args, {})
   zero_k = Rat.lift(0).key()
   atoms = {nm for x in asarr(is_c).ravel() for mono in Rat.lift(x).n.t for nm, _ in mono if avn._is_bool_name(nm)}
-  pos_atoms = [a for a in atoms if a[1] == '<' and a[2] == zero_k]
+  import itertools
   ok, why = False, 'no `impulse > 0` condition gates the contact'
   fatoms = {nm for l in I.leaves(force) for x in asarr(l).ravel() for mono in Rat.lift(x).n.t for nm, _ in mono
             if avn._is_bool_name(nm)}
-  for a in pos_atoms:
-    W = Rat.lift(avn.ATOM_ARGS[a][1][2])
-    # gates of the normal impulse on, the friction-only gates off
-    on = scenario.atoms_false([x for x in fatoms if x not in atoms], atoms_one=list(atoms))
-    fv = scenario.subst(force.f['vel'][0], on)
-    n = -cb.f['frame'][0][0]
-    off = scenario.subst(force, scenario.atoms_false([a]))
-    if same(fv, n * W) and is_zero(I, off):
-      ok = True
-    else:
-      why = 'the normal impulse is not `impulse * (-frame[0])` applied only when impulse > 0'
+  alist = sorted(atoms, key=repr)
+  dist_k = Rat.lift(cb.f['dist'][0]).key()
+  n = -cb.f['frame'][0][0]
+  for bits in itertools.product((1, 0), repeat=len(alist)):
+    sigma = dict(zip(alist, bits))
+    on = scenario.atoms_false([x for x in fatoms if x not in atoms] + [a for a in alist if not sigma[a]],
+                              atoms_one=[a for a in alist if sigma[a]])
+    if not same(scenario.subst(is_c, on), avn.P_ones((1,))):
+      continue
+    # the contact is applied under sigma: one atom must be `0 < W` (true) with W the normal impulse
+    for a in alist:
+      if not (sigma[a] and a[1] == '<' and a[2] == zero_k and a[3] != dist_k):
+        continue
+      W = Rat.lift(avn.ATOM_ARGS[a][1][2])
+      fv = scenario.subst(force.f['vel'][0], on)
+      off = scenario.subst(force, scenario.atoms_false([a]))
+      if same(fv, n * W) and is_zero(I, off):
+        ok = True
+      else:
+        why = 'the normal impulse is not `impulse * (-frame[0])` applied only when impulse > 0'
   rep.check(ok, 'R6.4', 'spring: normal impulse pushes along -frame[0] and only when positive', why, where=f.where(),
             construct='f = impulse * (-frame[0]) * [dist<0][normal_vel<0][impulse>0]')
   # ---- positional: dp_p.pos = lambda * (-frame[0]) * mass_inv_0 * scale, dp_c.pos = -(...) mass_inv_1
@@ -452,7 +488,7 @@ def _single_atom(r):
 
 def run(U, rep, tier):
   contacts(U, rep, tier)
-  spring_limits(U, rep)
-  positional_limits(U, rep)
+  spring_limits(U, rep, tier)
+  positional_limits(U, rep, tier)
   generalized_limits(U, rep)
   push_only(U, rep)
